@@ -94,8 +94,19 @@ fn mutate_node(t: &mut T, variant: usize) -> bool {
             0 => *k = "KZ".into(),
             _ => return false,
         },
-        After(n) | Older(n) => match variant {
+        // lock values that differ only in bits some comparison might ignore: +1, the BIP-68
+        // type flag (bit 22), bits above the 16-bit value mask, the height/time threshold
+        Older(n) => match variant {
             0 => *n += 1,
+            1 => *n ^= 1 << 22,
+            2 => *n += 1 << 16,
+            3 => *n += 1 << 23,
+            _ => return false,
+        },
+        After(n) => match variant {
+            0 => *n += 1,
+            1 => *n = if *n >= 500_000_000 { *n - 500_000_000 + 1 } else { *n + 500_000_000 },
+            2 => *n += 1 << 16,
             _ => return false,
         },
         Sha256(h) | Hash256(h) | Ripemd160(h) | Hash160(h) => match variant {
